@@ -16,17 +16,31 @@ META = {
 }
 
 
+KINDS = ('defunct', 'close', 'decode', 'proto', 'hb_silent', 'hb_error')
+
+
 def oracle_c10(h, acts, fail_index):
-    """after the failure completed: every callback registered when the failure started was invoked exactly once in total and got
-    ConnectionShutdown (or the decode error that caused the failure); nothing delivered to it later; later sends are refused."""
+    """after the failure completed: every handler registered when the failure started was invoked exactly once in total, with a
+    connection error (ConnectionShutdown, or the decode error / protocol error response that caused the failure for the request
+    being answered); nothing stays registered; a failed heartbeat (any owner, control connection included) defuncts the connection."""
     out = []
     if h.fail_snapshot is None:
         return out
     pending, sessions = h.fail_snapshot
+    if h.fail_kind.startswith('hb') and h.hb_failure_expected and not h.conn.is_defunct:
+        out.append(('heartbeat-failure.not-defunct' + ('.control-connection' if h.control else ''),
+                    'heartbeat %s on a %s connection: connection not defunct afterwards, %d pending handlers never failed'
+                    % (h.fail_kind, 'CONTROL' if h.control else 'pool', len(pending))))
+        return out
     for tok in pending:
         c = h.cb_counts.get(tok, [0, 0, 0])
-        if sum(c) != 1 or (c[1] + c[2]) != 1:
-            out.append(('pending-callback.count', 'callback %r outstanding at the failure was invoked %r (deliver, exc, shutdown) times' % (tok, c)))
+        ok = sum(c) == 1 and ((c[1] + c[2]) == 1 or tok == h.fail_answered_tok)
+        if not ok:
+            why = 'never invoked' if sum(c) == 0 else ('invoked %d times' % sum(c) if sum(c) > 1 else 'got a normal response')
+            out.append(('pending-callback.' + ('never-invoked' if sum(c) == 0 else 'invoked-twice' if sum(c) > 1 else 'count')
+                        + ('.after-raising-handler' if h.raising and sum(c) == 0 else ''),
+                        'handler %r outstanding at the failure (%s) was %s: (deliveries, decode errors, ConnectionShutdown) = %r; raising handlers %r'
+                        % (tok, h.fail_kind, why, c, sorted(h.raising))))
     for tok in sessions:
         e = h.cp_events.get(tok, [0, 0])
         if e[1] != 1:
@@ -39,10 +53,13 @@ def oracle_c10(h, acts, fail_index):
     return out
 
 
-def with_fault(cfg, acts, k, kind):
-    h = conn_impl.Harness(**cfg)
+def with_fault(cfg, acts, k, kind, raising=(), control=False):
+    hc = dict(cfg)
+    hc['control'] = control
+    h = conn_impl.Harness(**hc)
     h.fail_snapshot, h.fail_kind, h.send_race = None, kind, False
-    orig = h._before_close
+    h.fail_answered_tok, h.hb_failure_expected = None, False
+    h.raising = set(raising)
 
     def snap():
         if h.fail_snapshot is None:
@@ -61,18 +78,64 @@ def with_fault(cfg, acts, k, kind):
         if h.in_nested:
             h.send_race = True
         real_close(a)
-    h.a_defunct, h.a_close = a_defunct, a_close
-    seq = list(acts[:k]) + [{'a': kind}] + list(acts[k:])
+
+    def a_fail_respond(a):
+        # the failure is caused by the response being processed: undecodable body / ProtocolException
+        reg = h.conn.__dict__['_requests_real']
+        cand = [(i, t) for (i, t) in h.wire if i in reg and i not in h.conn._continuous_paging_sessions
+                and (i, t) == [w for w in h.wire if w[0] == i][0]]
+        if not cand or h.conn.is_defunct or h.conn.is_closed or h.pm is not None:
+            h.fail_kind = 'defunct'         # no registered request to answer: plain socket error instead
+            return a_defunct({'a': 'defunct'})
+        snap()
+        i, tok = cand[0]
+        h.fail_answered_tok = reg[i][0].tok
+        h.a_respond({'a': 'respond', 'i': i, 'd': a['d']})
+
+    def a_hb_fail(a):
+        alive = h.pool_has_conn() and not (h.conn.is_defunct or h.conn.is_closed)
+        snap()
+        if not alive:
+            h.fail_snapshot = None
+            return
+        h.hb_failure_expected = True
+        for _ in range(2):                  # the first round may only reset the idle flag of a busy connection
+            if h.pool_has_conn() and not h.conn.is_defunct:
+                h.a_hb_round({'a': 'hb_round', 'reply': a['reply']})
+    h.a_defunct, h.a_close, h.a_fail_respond, h.a_hb_fail = a_defunct, a_close, a_fail_respond, a_hb_fail
+    inj = {'defunct': {'a': 'defunct'}, 'close': {'a': 'close'}, 'decode': {'a': 'fail_respond', 'd': 'DFail'},
+           'proto': {'a': 'fail_respond', 'd': 'DProto'}, 'hb_silent': {'a': 'hb_fail', 'reply': 'silent'},
+           'hb_error': {'a': 'hb_fail', 'reply': 'error'}}[kind]
+    seq = list(acts[:k]) + [inj] + list(acts[k:])
     try:
         h.run(seq)
         # a send after the failure must be refused
-        if h.pool_has_conn():
+        if h.pool_has_conn() and h.fail_snapshot is not None:
             h.do({'a': 'query', 'r': 9001, 'in_cb': [{'a': 'return'}]})
             h.checkpoint()
     except Exception as e:
-        h.problems.append('exception escaped: %r' % (e,))
+        import traceback
+        h.problems.append('exception escaped: %r %s' % (e, traceback.format_exc()[-500:]))
         h.checkpoint()
     return h, seq
+
+
+def judge(ctx, name, cfg, seq, h, k, kind, raising, control):
+    found = oracle_c10(h, seq, k)
+    case = {'cfg': cfg, 'actions': seq, 'fault': [k, kind], 'raising': sorted(raising), 'control': control}
+    ctx.case([cfg, seq, sorted(raising), control], nontrivial=bool(h.fail_snapshot and (h.fail_snapshot[0] or h.fail_snapshot[1])),
+             sample={'cfg': cfg, 'actions': seq[:6], 'fault': kind, 'raising': sorted(raising), 'control': control,
+                     'pending_at_failure': h.fail_snapshot, 'counts': h.cb_counts})
+    for key, what in found:
+        ctx.violation(key, '%s; history=%s' % (what, json.dumps(seq)[:400]), case=case,
+                      expected='exactly one connection error per outstanding handler', actual=h.cb_counts, kind='history',
+                      theorem='C10_full_statement')
+    if any(e[0] == 0 and e[2] == 9001 for e in h.events):
+        ctx.violation('send-after-failure-accepted', 'send_msg accepted a request after the connection failure (%s)' % kind, case=case,
+                      theorem='C10_send_refused')
+    for p in h.problems:
+        ctx.disagreement('harness-problem', p[:300], case=case)
+    return found
 
 
 def run(ctx):
@@ -81,31 +144,42 @@ def run(ctx):
         ctx.coqchk('Props/C10.v')
     conn_check.run_audit(ctx)
     ctx.trust("no-socket harness: close() replicates the reactors' common close() (shape audited by lib/vf/conn_audit.py)")
-    ctx.assume('user callbacks do not raise', 'the daemon thread of error_all_requests runs to completion (made synchronous in the harness)')
+    ctx.assume('a handler may raise when it is told about the failure (the other handlers must still be failed)',
+               'the daemon thread of error_all_requests runs to completion (made synchronous in the harness)')
     base = conn_check.random_histories(ctx, 5 if ctx.tier == 'quick' else 60,
                                        profiles=[('plain', {'nest': 0.2, 'drain': False}), ('cp', {'nest': 0.2, 'cp': 1, 'drain': False}),
                                                  ('race', {'nest': 0.6, 'drain': False})], thread_threshold=True)
     hs = []
+    rng = ctx.rng
     for name, cfg, acts, _ in base:
+        toks = sorted(set(a['r'] for a in acts if 'r' in a and a['a'] in ('query', 'borrow', 'send')))
         for k in range(len(acts) + 1):
-            for kind in ('defunct', 'close'):
-                h, seq = with_fault(cfg, acts, k, kind)
+            for kind in KINDS:
+                raising = [t for t in toks if rng.random() < 0.4] if rng.random() < 0.5 else []
+                control = kind.startswith('hb') and rng.random() < 0.5
+                h, seq = with_fault(cfg, acts, k, kind, raising, control)
                 hs.append((name + ':' + kind, cfg, seq, h))
-                ctx.count('fault_kind', kind)
+                ctx.count('fault_kind', h.fail_kind)
                 ctx.count('fault_index', min(k, 10))
-                found = oracle_c10(h, seq, k)
-                ctx.case([cfg, seq], nontrivial=bool(h.fail_snapshot and (h.fail_snapshot[0] or h.fail_snapshot[1])),
-                         sample={'cfg': cfg, 'actions': seq[:6], 'pending_at_failure': h.fail_snapshot, 'counts': h.cb_counts})
-                for key, what in found:
-                    ctx.violation(key, '%s; history=%s' % (what, json.dumps(seq)[:400]), case={'cfg': cfg, 'actions': seq, 'fault': [k, kind]},
-                                  expected='exactly one connection error per outstanding handler', actual=h.cb_counts, kind='history',
-                                  theorem='C10_full_statement')
-                if any(e[0] == 0 and e[2] == 9001 for e in h.events):
-                    ctx.violation('send-after-failure-accepted', 'send_msg accepted a request on a failed connection', case={'cfg': cfg, 'actions': seq},
-                                  theorem='C10_send_refused')
-                for p in h.problems:
-                    ctx.disagreement('harness-problem', p[:300], case={'cfg': cfg, 'actions': seq})
-    # the two refutation witnesses, on the real code
+                ctx.count('raising_handlers', len(raising))
+                if control:
+                    ctx.count('owner', 'control-connection')
+                judge(ctx, name, cfg, seq, h, k, kind, raising, control)
+    # directed: several outstanding requests, some handlers raise, inline and helper-thread path of error_all_requests;
+    # failure caused by the response being processed; heartbeat failure on a control connection
+    many = [{'a': 'query', 'r': r, 'in_cb': [{'a': 'return'}]} for r in (1, 2, 3, 4)]
+    for thr_thr in (None, 2):
+        for kind in KINDS:
+            for raising in ((), (1, 2), (2, 3, 4)):
+                for control in ((False, True) if kind.startswith('hb') else (False,)):
+                    cfg = dict(n_init=4, max_in_flight=6, thr=3)
+                    if thr_thr:
+                        cfg['thread_threshold'] = thr_thr
+                    h, seq = with_fault(cfg, many, 4, kind, raising, control)
+                    hs.append(('directed:' + kind, cfg, seq, h))
+                    ctx.count('fault_kind', 'directed-' + kind)
+                    judge(ctx, 'directed', cfg, seq, h, 4, kind, raising, control)
+    # the refutation witness of the send/defunct race, on the real code
     w1 = [{'a': 'query', 'r': 7, 'in_cb': [{'a': 'return'}], 'after_check': [{'a': 'defunct'}]}]
     cfg = dict(n_init=4, max_in_flight=4, thr=2)
     h, seq = with_fault(cfg, w1, 1, 'close')
@@ -114,21 +188,23 @@ def run(ctx):
     for key, what in oracle_c10(h, seq, 0):
         ctx.violation(key, what + ' (witness of C10_send_race_refuted)', case={'cfg': cfg, 'actions': seq}, theorem='C10_send_race_refuted', kind='interleaving')
     ctx.exhaustive = False
-    ctx.rule = ('each generated history (1-6 requests, optional paging sessions / interleavings) replayed with defunct() and with close() injected at EVERY '
-                'index; non-trivial = at least one request or paging session outstanding at the failure')
+    ctx.rule = ('each generated history (1-6 requests, optional paging sessions / interleavings) replayed with a failure injected at EVERY index, of every '
+                'cause: defunct(), close(), undecodable response, ProtocolException response, silent / unexpected heartbeat (pool and control connection '
+                'owners); in half of the cases some handlers raise when errored; directed 4-request cases on the inline and the helper-thread path; '
+                'non-trivial = at least one request or paging session outstanding at the failure')
     conn_check.compare_with_model(ctx, hs, 'C10')
 
 
 def replay(ctx, rp):
     case = rp.get('case') or {}
-    if not case.get('actions'):
+    if not case.get('actions') or not case.get('fault'):
         print('nothing to replay: %s' % rp.get('theorem'))
         return 1
-    kind = 'close' if any(a['a'] == 'close' for a in case['actions']) else 'defunct'
-    k = [i for i, a in enumerate(case['actions']) if a['a'] == kind]
-    acts = [a for i, a in enumerate(case['actions']) if not k or i != k[0]]
-    h, seq = with_fault(case['cfg'], acts, k[0] if k else len(acts), kind)
+    k, kind = case['fault']
+    acts = case['actions'][:k] + case['actions'][k + 1:]
+    h, seq = with_fault(case['cfg'], acts, k, kind, case.get('raising', ()), case.get('control', False))
     found = oracle_c10(h, seq, 0)
-    print('counts', h.cb_counts, 'paging', h.cp_events, 'oracle', found)
+    print('per-handler (deliveries, decode errors, ConnectionShutdown):', h.cb_counts, 'paging', h.cp_events, 'defunct', h.conn.is_defunct)
+    print('oracle', found)
     print(('VIOLATION property=C10 replay=%s' % ctx.replay_path) if found else 'not reproduced')
     return 1 if found else 0
